@@ -1300,6 +1300,147 @@ pub fn suite_tables(ctx: &mut Ctx, suite: &str) {
 }
 
 // ---------------------------------------------------------------------------------------------
+// C15: determinism, re-runnability, static = dynamic
+
+/// what a static row and a dynamic row have in common: line, inputs (with changed flags), expected values
+fn common_part(l: &str) -> String {
+    let kind = item_kind(l);
+    let k = words(l).get(1).copied().unwrap_or("").to_string();
+    if kind != "row" {
+        return format!("{k} {kind}");
+    }
+    let line = field(l, "line").unwrap_or("");
+    let ins = field(l, "in").unwrap_or("");
+    let exp: Vec<String> = if l.starts_with("sitem") {
+        list_items(field(l, "exp").unwrap_or("[]")).iter().map(|s| s.to_string()).collect()
+    } else {
+        list_items(field(l, "out").unwrap_or("[]"))
+            .iter()
+            .map(|e| {
+                let (n, _, x, _) = out_entry(e);
+                format!("{n}:{x}")
+            })
+            .collect()
+    };
+    format!("{k} row line={line} in={ins} exp=[{}]", exp.join(","))
+}
+
+pub fn suite_c15(ctx: &mut Ctx, suite: &str, n: u64) {
+    if ctx.only_suite.as_deref().map(|s| s != suite).unwrap_or(false) {
+        return;
+    }
+    let mut prof = profile_for("C15");
+    prof.p_fault = 0;
+    for idx in 0..n {
+        let cs = case_seed(ctx.seed, suite, idx);
+        if ctx.only_case.map(|c| c != cs).unwrap_or(false) {
+            continue;
+        }
+        if ctx.too_many() {
+            break;
+        }
+        let mut cr = Prng::new(cs);
+        let mut case = gen_case(&mut cr, &prof);
+        case.fault = None;
+        let printed = print(&case.prog, &mut Prng::new(case.style_seed), &case.style);
+        judge_c15_case(ctx, suite, cs, &case, &printed.text, &mut cr);
+    }
+}
+
+pub fn judge_c15_case(ctx: &mut Ctx, suite: &str, cs: u64, case: &Case, src: &str, cr: &mut Prng) {
+    let text = describe_case(case, src);
+    ctx.tick(&text);
+    ctx.report.evaluations += 1;
+    let key = fnv(&format!("{src}|{:?}", case.sigs));
+    ctx.report.distinct.insert(key);
+    // (a) repeated parses
+    if let Some(p) = imp::repeated_parse_problem(case, src, 4) {
+        add_finding(ctx, "oracle", suite, cs, p, text.clone(), &[], &[]);
+    }
+    // (b) repeated iteration
+    let r1 = imp::run_dynamic(case, src);
+    let r2 = imp::run_dynamic(case, src);
+    if significant(&r1.lines) != significant(&r2.lines) {
+        add_finding(ctx, "oracle", suite, cs, format!("iterating the same test twice with identical driver responses differs: {}", first_diff(&significant(&r1.lines), &significant(&r2.lines))), text.clone(), &r1.lines, &r2.lines);
+    }
+    let bound = r1.lines.iter().any(|l| l.starts_with("bind ok"));
+    if !bound {
+        ctx.report.bump("not-bound");
+        return;
+    }
+    ctx.report.nontrivial.insert(key);
+    // (c) interleaved iterators over one TestCase
+    let schedule: Vec<bool> = (0..(cr.below(7) + 2)).map(|_| cr.chance(1, 2)).collect();
+    if let Some((a, b)) = imp::run_interleaved(case, src, &schedule) {
+        let single: Vec<String> = significant(&r1.lines)
+            .into_iter()
+            .filter(|l| l.starts_with("call ") || l.starts_with("item ") || l.starts_with("ctor "))
+            .map(|l| if l.starts_with("item ") && item_kind(&l) == "row" { l[..l.find(" vars=").unwrap_or(l.len())].to_string() } else { l.replace(" NOT-STICKY", "") })
+            .map(|l| if l.starts_with("ctor err") { "ctor not-ok".to_string() } else { l })
+            .collect();
+        for (name, s) in [("first", a), ("second", b)] {
+            let s = significant(&s);
+            if s != single && single.iter().any(|l| l == "ctor ok") {
+                add_finding(ctx, "oracle", suite, cs, format!("the {name} of two interleaved iterators (schedule {schedule:?}) differs from a single run: {}", first_diff(&s, &single)), text.clone(), &s, &single);
+            }
+        }
+        ctx.report.bump("interleaved");
+    }
+    // (d) static iteration
+    let Some((sl, sepochs, spanic)) = imp::run_static_case(case, src) else { return };
+    let req = imp::enc_run_request(src, &case.sigs, false, &[], &sepochs, case.cap, true);
+    let m = ctx.model.ask(&req);
+    let ms: Vec<String> = significant(&m).into_iter().filter(|l| l.starts_with("static") || l.starts_with("sitem")).collect();
+    let is_static = sl.first().map(|l| l == "static ok").unwrap_or(false);
+    ctx.report.bump(if is_static { "static" } else { "not-static" });
+    if significant(&sl) != ms {
+        add_finding(ctx, "model", suite, cs, format!("static iteration: {}", first_diff(&significant(&sl), &ms)), text.clone(), &sl, &m);
+    }
+    if spanic {
+        add_finding(ctx, "oracle", suite, cs, format!("static iteration panicked: {sl:?}"), text.clone(), &sl, &m);
+    }
+    // static iff the program reads no outputs (the bind line lists the recorded reads)
+    let reads_empty = r1.lines.iter().find(|l| l.starts_with("bind ok")).map(|l| l.contains(" reads=[] ")).unwrap_or(true);
+    if is_static != reads_empty {
+        add_finding(ctx, "oracle", suite, cs, format!("try_iter_static succeeded = {is_static} but 'no recorded reads' = {reads_empty}"), text.clone(), &sl, &r1.lines);
+    }
+    if is_static && case.fault.is_none() {
+        // the static stream equals the dynamic one (inputs, expected values, lines), whatever the driver returns
+        let s: Vec<String> = significant(&sl).iter().filter(|l| l.starts_with("sitem")).map(|l| common_part(l)).collect();
+        let d: Vec<String> = significant(&r1.lines).iter().filter(|l| l.starts_with("item")).map(|l| common_part(&l.replace(" NOT-STICKY", ""))).collect();
+        if s != d {
+            // known finding KF1? the static run stops on an identifier that is unassigned although the
+            // parser took it for a variable, while the dynamic run reads the device output of that name
+            let model_says_unassigned = m.iter().any(|l| l.starts_with("# expr") && l.contains("unassigned"));
+            let name = m
+                .iter()
+                .find(|l| l.starts_with("# expr") && l.contains("unassigned"))
+                .and_then(|l| l.split('"').nth(1).map(|s| s.to_string()));
+            let is_output = name.as_ref().map(|n| case.sigs.iter().any(|s| &s.name == n && s.is_output())).unwrap_or(false);
+            let first_bad = s.iter().zip(d.iter()).position(|(a, b)| a != b).unwrap_or(s.len().min(d.len()));
+            let static_err_there = s.get(first_bad).map(|l| l.ends_with(" err")).unwrap_or(false);
+            if model_says_unassigned && is_output && static_err_there && significant(&sl) == ms {
+                add_finding(
+                    ctx,
+                    "known",
+                    suite,
+                    cs,
+                    {
+                        let _ = name;
+                        "KF1 static != dynamic: a name assigned only inside a while body that ran zero times is still taken for a variable by the parser; the dynamic run reads the device output of that name, the static run cannot (known_findings.json)".to_string()
+                    },
+                    text.clone(),
+                    &sl,
+                    &r1.lines,
+                );
+            } else {
+                add_finding(ctx, "oracle", suite, cs, format!("static and dynamic iteration differ: {}", first_diff(&s, &d)), text.clone(), &sl, &r1.lines);
+            }
+        }
+    }
+}
+
+// ---------------------------------------------------------------------------------------------
 
 pub fn run_property(ctx: &mut Ctx) {
     let t = ctx.thorough();
@@ -1309,6 +1450,10 @@ pub fn run_property(ctx: &mut Ctx) {
     match prop.as_str() {
         "C01" | "C02" | "C03" | "C04" | "C05" | "C06" | "C11" | "C13" | "C14" | "C18" => suite_run(ctx, "run", k(6000, 60000)),
         "C17" => suite_run(ctx, "run", k(6000, 60000)),
+        "C15" => {
+            suite_c15(ctx, "c15", k(2500, 40000));
+            suite_run(ctx, "run", k(1500, 20000));
+        }
         "C10" => {
             suite_run(ctx, "run", k(6000, 60000));
             suite_ops(ctx, "ops", k(20, 2000));
